@@ -100,6 +100,11 @@ func c03Check(ctx *vfCtx, c c03Case) {
 			ctx.Unjudged("v12: an m.room.create-typed event with a non-empty state key and a room ID is refused by Build")
 			return
 		}
+		if cv, _, perr := jparse(p.Content); perr == nil && evLookAlikeContentKey(p.Type, cv) {
+			ctx.Class("look-alike-content-key(refused)")
+			ctx.Unjudged("content with a key that case-folds to one of the keys the rules read for this event type: refused by Build (and by the untrusted parsers)")
+			return
+		}
 		ctx.Fail("C03/build-error", "EventBuilder.Build failed for a well-formed proto-event: %v", err)
 		return
 	}
